@@ -396,7 +396,7 @@ fn gen_ops(rng: &mut Rng, steps: usize) -> Vec<Op> {
     let mut next_ack_guess = 1u64;
     for _ in 0..steps {
         let op = match rng.below(12) {
-            0 | 1 => Op::Publish(1 + rng.below(3) as u8),
+            0 | 1 => Op::Publish(if rng.below(12) == 0 { 100 + rng.below(150) as u8 } else { 1 + rng.below(3) as u8 }),
             2 | 3 | 4 => { let mx = [0u16, 1, 1, 2, 3, 10, 1000][rng.below(7) as usize]; next_ack_guess += 2; Op::Pull(mx) }
             5 | 6 => { let n = 1 + rng.below(4); Op::Ack((0..n).map(|_| { let id = 1 + rng.below(next_ack_guess.min(12) + 2);
                 // now and then a never-issued id that equals a small id modulo 2^16 / 2^32: must be ignored like any unknown id
